@@ -276,7 +276,7 @@ class Sim:
             self.bg2.__exit__(None, None, None)
             self.bg2 = None
 
-    def op_incall(self, roots, k, by_exc):
+    def op_incall(self, roots, k, by_exc, late_stage=False):
         """A call during which the probe is deactivated from *inside* the k-th activation (before
         that activation's later bindings): the frames that are still running stay instrumented,
         but nothing they bind afterwards may reach the pipeline."""
@@ -315,6 +315,11 @@ class Sim:
         def cb_fn(node):
             try:
                 self.op_deactivate(by_exc)
+                if late_stage and self.phase == "done":
+                    # attached right after the deactivation, while activations of the probed
+                    # function are still running: must stay empty
+                    self.op_stage("accum")
+                    self.flags.add("stage-attached-while-frames-survive")
             except BaseException as e:  # noqa
                 err.append(e)
             return node["ret"]
@@ -585,9 +590,9 @@ def make_machine(rec):
             self._do(("root", 2))
 
         @precondition(lambda self: self.sim.phase == "active")
-        @rule(roots=plans, k=st.integers(0, 5), by_exc=st.booleans())
-        def incall(self, roots, k, by_exc):
-            self._do(("incall", roots, k, by_exc))
+        @rule(roots=plans, k=st.integers(0, 5), by_exc=st.booleans(), late=st.booleans())
+        def incall(self, roots, k, by_exc, late):
+            self._do(("incall", roots, k, by_exc, late))
 
         def teardown(self):
             sim = self.sim
